@@ -1,5 +1,5 @@
 (* Lemmas and final statements for property C09 (names C09_<theorem>). *)
-From Coq Require Import List NArith Bool Lia ZifyBool ZifyNat ZifyN Arith PeanoNat.
+From Coq Require Import List NArith ZArith Bool Lia ZifyBool ZifyNat ZifyN Arith PeanoNat.
 From RB Require Import Base.Val Model.Export Spec.ExportSpec.
 Import ListNotations.
 Open Scope N_scope.
@@ -1864,3 +1864,69 @@ Example ex_llgr_scenario : exists nh1 a1 s1 nh2 a2 s2 e,
   llgr_scenario (ex_ctx Ebgp 0) no_policy 1 (ip4 10 0 0 1) None (ex_peer Ebgp 65002 false) (Some (NhV4 [10; 0; 0; 9])) ex_attrs
   = Ok ([Reach 1 0 nh1 a1 s1], [Reach 1 0 nh2 a2 s2], e).
 Proof. do 7 eexists. vm_compute. reflexivity. Qed.
+
+(* ================================================================ real export policies: next-hop and MED actions *)
+Lemma stmt_policy_inv : forall x raddr st default s a nh onh a1 nh1,
+  stmt_policy x raddr st default s a nh onh = Some (a1, nh1) ->
+  a1 = match st_med st with
+       | None => a
+       | Some act =>
+         filter (fun t => negb (a_code t =? MED)) a
+         ++ [mk_val MED FLAG_OPTIONAL
+               (match act with
+                | MedMod d => clamp_u32 (Z.of_N (match find_code MED a with
+                                                  | Some m => match value m with Some v => v | None => 0 end
+                                                  | None => 0 end) + d)
+                | MedReplace v => clamp_u32 v
+                end)]
+       end.
+Proof.
+  intros x raddr st default s a nh onh a1 nh1 H. unfold stmt_policy in H.
+  destruct (match st_disp st with DPass => default | d => d end); inversion H; reflexivity.
+Qed.
+
+Lemma stmt_policy_keeps_decodable : forall x raddr st default,
+  policy_keeps_decodable (stmt_policy x raddr st default).
+Proof.
+  intros x raddr st default s a nh onh a' nh' Hd H. apply stmt_policy_inv in H. subst a'.
+  destruct (st_med st) as [act|]; [|exact Hd].
+  apply (decodable_ext a); [exact Hd|]. intros y Hy. apply in_app_or in Hy. destruct Hy as [Hy|[Hy|[]]].
+  - apply filter_In in Hy. tauto.
+  - right. subst y. unfold fresh_ok. cbn. repeat split; discriminate.
+Qed.
+
+(* a set-med export policy is not clobbered: towards an eBGP peer the MED sent is the
+   one the policy computes from a cleared MED (the received one was removed first) *)
+Theorem C09_ebgp_policy_med : forall x st default emax raddr cid c e d pid nh out s act,
+  x_role x = Ebgp -> st_med st = Some act ->
+  advertised x (stmt_policy x raddr st default) emax raddr cid c e d pid nh out s ->
+  exists m, find_code MED out = Some m
+    /\ a_data m = DVal (match act with MedMod dl => clamp_u32 dl | MedReplace v => clamp_u32 v end).
+Proof.
+  intros x st default emax raddr cid c e d pid nh out s act Hr Hact (r & H & Hin).
+  destruct (reach_origin _ _ _ _ _ _ _ _ _ _ _ _ _ _ H Hin) as (p & a & Hp & Hv & Hs & Hst & Hx).
+  destruct (policy_stage_inv _ _ _ _ _ _ _ Hst) as (a1 & Hpol & Ha).
+  apply stmt_policy_inv in Hpol. rewrite Hact in Hpol.
+  pose proof (pre_policy_no_med x (p_attrs p) (p_nh p) (c_family c) (src_is_local (p_src p)) Hr) as Hno.
+  unfold absent in Hno. apply find_code_None in Hno. rewrite Hno in Hpol.
+  set (m := mk_val MED FLAG_OPTIONAL (match act with MedMod dl => clamp_u32 (Z.of_N 0 + dl) | MedReplace v => clamp_u32 v end)) in Hpol.
+  exists m. split.
+  - apply (export_attrs_find_keep x _ out MED m Hx); try discriminate; try reflexivity.
+    rewrite llgr_stage_find_other by discriminate. subst a. rewrite reflect_stage_find_other by discriminate.
+    subst a1. rewrite find_code_app.
+    assert (En : find_code MED (filter (fun t => negb (a_code t =? MED))
+                   (fst (pre_policy_defaults x (p_attrs p) (p_nh p) (c_family c) (src_is_local (p_src p))))) = None).
+    { apply find_code_None. apply has_code_filter_out. }
+    rewrite En. reflexivity.
+  - subst m. cbn [mk_val a_data]. destruct act; reflexivity.
+Qed.
+
+Example ex_policy_med : exists nh out m,
+  advertised (ex_ctx Ebgp 0) (stmt_policy (ex_ctx Ebgp 0) (ip4 10 0 0 1) {| st_nh := Some NaUnchanged; st_med := Some (MedMod 7); st_disp := DAccept |} DReject)
+             1 (ip4 10 0 0 1) None (ex_change (SrcPeer (ex_peer Ebgp 65002 false))) ENone
+             1 0 nh out (SrcPeer (ex_peer Ebgp 65002 false))
+  /\ find_code MED out = Some m /\ a_data m = DVal 7 /\ nh = Some (NhV4 [10; 0; 0; 9]).
+Proof.
+  do 3 eexists. split; [eexists; split; [vm_compute; reflexivity | left; reflexivity]|].
+  split; [vm_compute; reflexivity | split; reflexivity].
+Qed.
